@@ -1,6 +1,6 @@
 (* Prover cases (C04 C07):
    (P <L|W> <request> <ctx> <link> <selection> <self-attested> <implementation result> <leaks> <secrets> <verify outcome opt> <expect honest>) *)
-From Coq Require Import List String ZArith NArith Bool.
+From Coq Require Import List String Ascii ZArith NArith Bool.
 From AV Require Import Model.Sexp Model.Query Model.VTypes Model.Interval Model.VerifierLegacy Model.VDecode Model.VCfg Model.VProps Model.CaseV
   Model.Prover Model.PProps.
 Import ListNotations.
@@ -95,6 +95,18 @@ Definition pimpl_tag (a : pimpl) : string := match a with IOk _ => "ok" | IErr =
 
 Definition dec_leak (e : sexp) : option (Z * string) := dec_pair dec_Z dec_str e.
 
+(* known finding (C04/C14): inside a W3C presentation the CL sub-proof travels as msgpack, where
+   the dependency writes big numbers as unsigned bytes; a REVEALED attribute whose encoded value is
+   negative loses its sign and the presentation is rejected. The class: the selection reveals an
+   attribute with a negative encoded value. *)
+Definition is_negative (e : string) : bool := match e with String a _ => Ascii.eqb a "-"%char | _ => false end.
+Definition reveals_negative (c : pcase) : bool :=
+  existsb (fun p =>
+    existsb (fun '(r, reveal) =>
+      (reveal : bool) && match assoc r (rq_attrs (pc_req c)) with
+                         | Some ai => existsb (fun n => match find_value (pr_cred p) n with Some (_, e) => is_negative e | None => false end) (names_of ai)
+                         | None => false end) (pr_attrs p)) (nonempty (pc_sel c)).
+
 Definition check_P (p : string) (args : list sexp) : list sexp :=
   match args with
   | [A "P"; fmt; r; cx; link; sel; self; impl; leaks; secrets; vo; expect] =>
@@ -120,7 +132,8 @@ Definition check_P (p : string) (args : list sexp) : list sexp :=
                          | None, _ => true
                          | Some _, None => false end
                       && (negb expect' || honest) in
-          [A (if okv then (if relv then "ok" else "rel") else "bad");
+          let known_neg := negb legacy && reveals_negative c in
+          [A (if okv then (if relv || known_neg then "ok" else "rel") else if known_neg && (p =? "C04") then "known:w3c-negative-revealed" else "bad");
            A ("impl:" ++ pimpl_tag impl'); A ("model:" ++ pimpl_tag m);
            A ("verify:" ++ match vo' with Some o => outcome_tag o | None => "none" end);
            A ("honest:" ++ (if honest then "t" else "f") ++ (if expect' then "/expected" else ""));
